@@ -36,6 +36,7 @@ type Frame struct {
 	recovered bool
 	onReturn func(st *State, results Value) // optional native continuation
 	onPanic  func(st *State, pi *PanicInfo) // panic barrier (NoPanic)
+	noPreempt int                            // block*100000+pc+1 of the instruction that already forked a pre-emption
 }
 
 type NondetRec struct {
@@ -85,6 +86,13 @@ type State struct {
 	badSigs    []*Term
 	decs       []decRec
 	bigs       map[int]*Term
+	gos        []*Gor
+	curGo      int
+	goSeq      int
+	syncVer    int
+	mutexes    map[string]int
+	mustNotBlock int
+	preemptOn    bool
 }
 
 type decRec struct {
@@ -135,6 +143,16 @@ func (st *State) clone() *State {
 	n.sigs = append([]sigReg(nil), st.sigs...)
 	n.badSigs = append([]*Term(nil), st.badSigs...)
 	n.decs = append([]decRec(nil), st.decs...)
+	n.curGo, n.goSeq, n.syncVer, n.mustNotBlock, n.preemptOn = st.curGo, st.goSeq, st.syncVer, st.mustNotBlock, st.preemptOn
+	for _, g := range st.gos {
+		n.gos = append(n.gos, &Gor{id: g.id, frames: cloneFrames(g.frames), blockedAt: g.blockedAt, settling: g.settling})
+	}
+	if st.mutexes != nil {
+		n.mutexes = make(map[string]int, len(st.mutexes))
+		for k, v := range st.mutexes {
+			n.mutexes[k] = v
+		}
+	}
 	if st.bigs != nil {
 		n.bigs = make(map[int]*Term, len(st.bigs))
 		for k, v := range st.bigs {
